@@ -15,6 +15,10 @@ CHECKS["C12"]=dict(level="model_checking", ref="§C12",
    technique="explicit-state BFS over command histories on the real Tap in lock step with a reference deck (refinement mapping to the uninterrupted tape)",
    text="All histories of up to 4 (quick) / 5 (thorough) commands from {stop, play, rewind-while-stopped}, issued at every T-state position inside the listed windows of the waveform (start, first pilot pulses, pilot-sync-first byte, last bits, pause head and tail, next pilot, end of tape, after the end), from a playing and a cold deck; after every action the complete tape state except prev_state must equal the uninterrupted tape's state at the reference deck position, and stopped time must change nothing. Dedup on the complete state including prev_state.",
    note="Refinement target is the C11-verified uninterrupted chain. Not judged: rewind while playing. Trusts hook H3.")
+CHECKS["C17"]=dict(level="model_checking", ref="§C17",
+   technique="exhaustive enumeration of event histories up to a depth (history replay on a fresh real Emulator), lock-step reference matrix, failing histories delta-debugged to minimal ones",
+   text="Every event history up to depth 2 over the full alphabet (40 keys, 7 compound keys, 10 Sinclair controls, 8 Kempston bits, 4 mouse buttons, wheel, motion) and up to depth 4 (quick) / 5 (thorough) over each collision cluster (controls that share matrix positions across sources) is replayed on a fresh real Emulator and read back through IN instructions executed by the emulated CPU; all 8 half-rows, all 256 selector bytes, the Kempston port and the mouse ports are compared with a reference matrix. No state merging on the implementation side.",
+   note="Keyboard/joystick and mouse are read on two machine configurations (which device wins a shared port is C07). Known finding: Sinclair joystick 2 down.")
 NOT_YET = {
 }
 def main():
